@@ -1,8 +1,8 @@
 SPECIFICATION Spec
 CONSTANTS
-  Sessions = {1, 2, 3}
+  Sessions = {1, 2, 3, 4}
   PkForms = {"comp", "uncomp", "bad"}
   SigForms = {"full", "nov", "vflip", "rflip", "empty", "short", "long"}
-  MaxOps = 9
+  MaxOps = 11
   RecordHist = FALSE
-INVARIANT BoundToSession NoImpersonationAtAcceptor DialerSeesSessionEnd AttackerNeverOther
+INVARIANT AcceptorFresh SecretsDistinct ReplayedNeverIdentified BoundToSession NoImpersonationAtAcceptor DialerSeesSessionEnd AttackerNeverOther
